@@ -180,11 +180,11 @@ theorem finishParse_dict_fresh (st : ParseSt) (used : List String) (n : String) 
   have : t.1 ≠ n := fun e => hn (e ▸ hacc t ht)
   rw [dictGet_set_other st.dict n t.1 v hk this]
 
-theorem yamlStep_own (pfx : String) (st : ParseSt) (outs : List ParsedSample) (used : List String)
+theorem yamlStep_own (rc : Bool) (pfx : String) (st : ParseSt) (outs : List ParsedSample) (used : List String)
     (e : YamlEntry) (n : String) (hI : ParseInv st outs used) (hn : e.name = some n) (hfresh : n ∉ used) :
     match parseOwnYaml e n with
-    | none => yamlStep pfx st e = none
-    | some r => ∃ st', yamlStep pfx st e = some st' ∧ ParseInv st' (outs ++ r.toList) (n :: used) := by
+    | none => yamlStepR rc pfx st e = none
+    | some r => ∃ st', yamlStepR rc pfx st e = some st' ∧ ParseInv st' (outs ++ r.toList) (n :: used) := by
   have hnames : st.names.contains n = false := by
     rw [Bool.eq_false_iff]
     intro h
@@ -193,7 +193,7 @@ theorem yamlStep_own (pfx : String) (st : ParseSt) (outs : List ParsedSample) (u
     rw [Bool.eq_false_iff]
     intro h
     exact hfresh (hI.keys n h)
-  unfold parseOwnYaml yamlStep
+  unfold parseOwnYaml yamlStepR
   simp only [hn, hnames, Bool.false_and, Bool.false_eq_true, if_false]
   cases hf : e.files with
   | none => simp
@@ -239,14 +239,14 @@ theorem yamlStep_own (pfx : String) (st : ParseSt) (outs : List ParsedSample) (u
             · exact List.mem_cons_of_mem _ (hI.acc t h)
             · simp only [List.mem_singleton] at h; rw [h]; exact List.mem_cons_self
 
-theorem yamlLoop_own (pfx : String) (entries : List YamlEntry) (ns : List String) (st : ParseSt)
+theorem yamlLoop_own (rc : Bool) (pfx : String) (entries : List YamlEntry) (ns : List String) (st : ParseSt)
     (outs : List ParsedSample) (used : List String) (hI : ParseInv st outs used)
     (hnames : entries.map YamlEntry.name = ns.map some) (hnd : ns.Nodup) (hfresh : ∀ n ∈ ns, n ∉ used) :
-    (yamlLoop pfx st entries).map finishParse = (parseEachOwn (entries.zip ns)).map (fun rs => outs ++ rs) := by
+    (yamlLoopR rc pfx st entries).map finishParse = (parseEachOwn (entries.zip ns)).map (fun rs => outs ++ rs) := by
   induction entries generalizing ns st outs used with
   | nil =>
     cases ns with
-    | nil => simp [yamlLoop, parseEachOwn, hI.fin]
+    | nil => simp [yamlLoopR, parseEachOwn, hI.fin]
     | cons n ns => simp at hnames
   | cons e es ih =>
     cases ns with
@@ -254,8 +254,8 @@ theorem yamlLoop_own (pfx : String) (entries : List YamlEntry) (ns : List String
     | cons n ns =>
       simp only [List.map_cons, List.cons.injEq] at hnames
       have hnd' := List.nodup_cons.mp hnd
-      have hstep := yamlStep_own pfx st outs used e n hI hnames.1 (hfresh n List.mem_cons_self)
-      simp only [List.zip_cons_cons, parseEachOwn, yamlLoop]
+      have hstep := yamlStep_own rc pfx st outs used e n hI hnames.1 (hfresh n List.mem_cons_self)
+      simp only [List.zip_cons_cons, parseEachOwn, yamlLoopR]
       cases hp : parseOwnYaml e n with
       | none =>
         simp only [hp] at hstep
@@ -359,20 +359,20 @@ structure FilesFrame (s s' : ListSt) (d' : List (String × String)) (c' : List (
   other : ∀ k, k ≠ s.curName → dictGet s'.st.dict k = dictGet s.st.dict k
   keys : ∀ k, hasKey s'.st.dict k = true → hasKey s.st.dict k = true ∨ k = s.curName
 
-theorem listLoop_files (pfx : String) (lines : List ListLine) (hl : ∀ l ∈ lines, l.isFiles = true) (s : ListSt) :
+theorem listLoop_files (rc : Bool) (pfx : String) (lines : List ListLine) (hl : ∀ l ∈ lines, l.isFiles = true) (s : ListSt) :
     match blockOwn (dictGet s.st.dict s.curName) s.cur lines with
-    | none => listLoop pfx s lines = none
-    | some r => ∃ s', listLoop pfx s lines = some s' ∧ FilesFrame s s' r.1 r.2 := by
+    | none => listLoopR rc pfx s lines = none
+    | some r => ∃ s', listLoopR rc pfx s lines = some s' ∧ FilesFrame s s' r.1 r.2 := by
   induction lines generalizing s with
   | nil =>
-    simp only [blockOwn, listLoop]
+    simp only [blockOwn, listLoopR]
     exact ⟨s, rfl, ⟨rfl, rfl, rfl, rfl, rfl, rfl, fun _ _ => rfl, fun _ h => Or.inl h⟩⟩
   | cons l ls ih =>
     cases l with
     | header n => simp [ListLine.isFiles] at hl
     | files fs label =>
       have hls : ∀ l ∈ ls, l.isFiles = true := fun l h => hl l (List.mem_cons_of_mem _ h)
-      simp only [blockOwn, listLoop, listStep]
+      simp only [blockOwn, listLoopR, listStepR]
       cases ha : addFiles (dictGet s.st.dict s.curName) (fs.map (fun f => (f.path, lineLabel fs label))) with
       | none => simp
       | some d1 =>
@@ -417,12 +417,12 @@ theorem flush_dict (s : ListSt) : s.flush.dict = s.st.dict := by
 theorem flush_index (s : ListSt) : s.flush.index = s.st.index := by
   unfold ListSt.flush; split <;> rfl
 
-theorem listBlock_own (pfx : String) (s : ListSt) (outs : List ParsedSample) (used : List String)
+theorem listBlock_own (rc : Bool) (pfx : String) (s : ListSt) (outs : List ParsedSample) (used : List String)
     (n : String) (lines : List ListLine) (hI : ListInv s outs used) (hne : n.isEmpty = false)
     (hfresh : n ∉ used) (hl : ∀ l ∈ lines, l.isFiles = true) :
     match ownBlock n lines with
-    | none => listLoop pfx s (ListLine.header n :: lines) = none
-    | some r => ∃ s', listLoop pfx s (ListLine.header n :: lines) = some s' ∧ ListInv s' (outs ++ r.toList) (n :: used) := by
+    | none => listLoopR rc pfx s (ListLine.header n :: lines) = none
+    | some r => ∃ s', listLoopR rc pfx s (ListLine.header n :: lines) = some s' ∧ ListInv s' (outs ++ r.toList) (n :: used) := by
   have hnames : s.flush.names.contains n = false := by
     rw [Bool.eq_false_iff]
     intro h
@@ -432,13 +432,13 @@ theorem listBlock_own (pfx : String) (s : ListSt) (outs : List ParsedSample) (us
     intro h
     exact hfresh (hI.keys n h)
   -- the header line
-  have hhead : listStep pfx s (ListLine.header n)
+  have hhead : listStepR rc pfx s (ListLine.header n)
       = some ⟨{ s.flush with index := s.flush.index + 1 }, [], n⟩ := by
     have hmem : n ∉ s.flush.names := fun h => hfresh (hI.names n h)
-    simp [listStep, hne, hmem]
-  simp only [listLoop, hhead]
+    simp [listStepR, hne, hmem]
+  simp only [listLoopR, hhead]
   -- the file lines
-  have hfiles := listLoop_files pfx lines hl ⟨{ s.flush with index := s.flush.index + 1 }, [], n⟩
+  have hfiles := listLoop_files rc pfx lines hl ⟨{ s.flush with index := s.flush.index + 1 }, [], n⟩
   have hd : dictGet s.flush.dict n = [] := by rw [flush_dict]; exact dictGet_fresh _ _ hkey
   dsimp only at hfiles
   rw [hd] at hfiles
@@ -496,29 +496,29 @@ theorem listBlock_own (pfx : String) (s : ListSt) (outs : List ParsedSample) (us
         · exact List.mem_cons_of_mem _ (hI.acc t h)
         · simp only [List.mem_singleton] at h; rw [h]; exact List.mem_cons_self
 
-theorem listLoop_append (pfx : String) (l1 l2 : List ListLine) (s : ListSt) :
-    listLoop pfx s (l1 ++ l2) = (listLoop pfx s l1).bind (fun s' => listLoop pfx s' l2) := by
+theorem listLoop_append (rc : Bool) (pfx : String) (l1 l2 : List ListLine) (s : ListSt) :
+    listLoopR rc pfx s (l1 ++ l2) = (listLoopR rc pfx s l1).bind (fun s' => listLoopR rc pfx s' l2) := by
   induction l1 generalizing s with
-  | nil => simp [listLoop]
+  | nil => simp [listLoopR]
   | cons l ls ih =>
-    simp only [List.cons_append, listLoop]
-    cases listStep pfx s l with
+    simp only [List.cons_append, listLoopR]
+    cases listStepR rc pfx s l with
     | none => simp
     | some s' => simpa using ih s'
 
-theorem listLoop_blocks (pfx : String) (blocks : List (String × List ListLine)) (s : ListSt)
+theorem listLoop_blocks (rc : Bool) (pfx : String) (blocks : List (String × List ListLine)) (s : ListSt)
     (outs : List ParsedSample) (used : List String) (hI : ListInv s outs used)
     (hne : ∀ b ∈ blocks, b.1.isEmpty = false ∧ ∀ l ∈ b.2, l.isFiles = true)
     (hnd : (blocks.map Prod.fst).Nodup) (hfresh : ∀ b ∈ blocks, b.1 ∉ used) :
-    (listLoop pfx s (renderBlocks blocks)).map (fun s' => finishParse s'.flush)
+    (listLoopR rc pfx s (renderBlocks blocks)).map (fun s' => finishParse s'.flush)
       = (parseEachOwnBlock blocks).map (fun rs => outs ++ rs) := by
   induction blocks generalizing s outs used with
-  | nil => simp [renderBlocks, listLoop, parseEachOwnBlock, hI.fin]
+  | nil => simp [renderBlocks, listLoopR, parseEachOwnBlock, hI.fin]
   | cons b bs ih =>
     obtain ⟨n, lines⟩ := b
     have hb := hne (n, lines) List.mem_cons_self
     simp only [List.map_cons, List.nodup_cons] at hnd
-    have hstep := listBlock_own pfx s outs used n lines hI hb.1 (hfresh (n, lines) List.mem_cons_self) hb.2
+    have hstep := listBlock_own rc pfx s outs used n lines hI hb.1 (hfresh (n, lines) List.mem_cons_self) hb.2
     have hr : renderBlocks ((n, lines) :: bs) = (ListLine.header n :: lines) ++ renderBlocks bs := by
       simp [renderBlocks]
     rw [hr, listLoop_append]
